@@ -177,3 +177,99 @@ Section Crash.
     eapply released_consistent; eauto. exact crash_plan_running.
   Qed.
 End Crash.
+
+(* ------------------------------------------------------------------ the plan rule (clause 6) *)
+From Coercion.C10x Require Import PlanInv.
+
+Lemma failed_not_all_completed (st : obj -> status) l :
+  existsb (fun b => status_eqb (st (OBlock b)) Failed) l = true -> forallb (fun b => status_eqb (st (OBlock b)) Completed) l = true -> False.
+Proof.
+  induction l as [|b l IH]; simpl; [discriminate|]. intros H1 H2. apply andb_true_iff in H2 as [H2 H3].
+  apply orb_true_iff in H1 as [H1|H1]; [|auto]. apply status_eqb_eq in H1, H2. congruence.
+Qed.
+
+Lemma final_completed sh st :
+  fst (final sh st) = Completed ->
+  examine_bypass sh st = true
+  \/ (all_blocks_completed sh st = true /\ examine sh st [GPre; GCont] = None /\ examine sh st [GPost; GDeferred] = None).
+Proof.
+  unfold final, final_blocks. destruct (examine_bypass sh st); [now left|]. right.
+  destruct (examine sh st [GPre; GCont]) as [r|]; [simpl in H; discriminate|].
+  destruct (any_block_failed sh st) eqn:Ef.
+  - destruct (all_blocks_completed sh st) eqn:Ec; [|simpl in H; discriminate]. exfalso.
+    unfold any_block_failed in Ef. unfold all_blocks_completed in Ec. eapply failed_not_all_completed; eauto.
+  - destruct (examine sh st [GPost; GDeferred]) as [r|]; [simpl in H; discriminate|].
+    destruct (all_blocks_completed sh st); [auto|simpl in H; discriminate].
+Qed.
+
+Lemma examine_none sh st gs g :
+  examine sh st gs = None -> In g gs -> gpresent sh g = false \/ st (OChecks SPlan g) = Completed.
+Proof.
+  induction gs as [|g0 gs IH]; [contradiction|]. simpl.
+  destruct (gpresent sh g0 && negb (status_eqb (st (OChecks SPlan g0)) Completed)) eqn:E; [discriminate|].
+  intros H [->|Hin]; [|auto]. apply andb_false_iff in E as [E|E]; [now left|right].
+  apply negb_false_iff in E. now apply status_eqb_eq.
+Qed.
+
+Lemma release_state2 d sh J rs tr fin r0 r :
+  mem_sound sh J -> repair_sound sh J -> ist J OPlan = Running -> rinit sh J rs = Some r0 ->
+  rrun d sh r0 (tr ++ [EvRelease fin]) = Some r ->
+  exists r1, K2 sh J r1 /\ r_ph r1 = RRun /\ r_release d sh r1 fin = Some r.
+Proof.
+  intros MS RS Hp Hi H. rewrite rrun_app in H. destruct (rrun d sh r0 tr) as [r1|] eqn:E1; [|discriminate].
+  simpl in H. destruct (rstep d sh r1 (EvRelease fin)) as [r2|] eqn:E2; [|discriminate]. injection H as <-.
+  pose proof (K2_run sh J d rs r0 tr r1 MS RS Hp Hi E1) as K1.
+  destruct (rstep_release _ _ _ _ _ E2) as (r1' & Hs & Hr).
+  pose proof (reps_star_inv (K2 sh J) sh (K2_reps sh J MS RS) _ _ Hs K1) as K1'.
+  exists r1'. split; [exact K1'|]. split; [|exact Hr].
+  eapply live_release_run; [|exact Hr]. exact (i_live _ _ _ (k_inv _ _ _ (k2_k _ _ _ K1'))).
+Qed.
+
+Theorem released_plan_consistent d sh J rs tr fin r0 r :
+  mem_sound sh J -> repair_sound sh J -> ist J OPlan = Running -> rinit sh J rs = Some r0 ->
+  rrun d sh r0 (tr ++ [EvRelease fin]) = Some r -> plan_consistent sh fin = true.
+Proof.
+  intros MS RS Hp Hi H. destruct (release_state2 _ _ _ _ _ _ _ _ MS RS Hp Hi H) as (r1 & [_ _ HPL] & Hrun & Hrel).
+  assert (Hread : forall o, In o (all_objs sh) -> exists c, im_lookup fin o = Some c /\ ocell_cell c = mget r1 o).
+  { intros o Ho. eapply released_mem; eauto. }
+  assert (Hst : forall o, obj_in_shape sh o = true -> cst fin o = mst (mget r1) o).
+  { intros o Ho. apply (read_st sh fin (mget r1) Hread). now apply AllObjs.all_objs_spec. }
+  destruct (release_facts _ _ _ _ _ Hrun Hrel) as (_ & _ & _ & Hterm).
+  destruct (HPL Hterm) as [_ Heq].
+  unfold plan_consistent. rewrite (Hst OPlan eq_refl).
+  destruct (status_eqb (mst (mget r1) OPlan) Completed) eqn:Ec; [|reflexivity]. simpl. apply status_eqb_eq in Ec.
+  rewrite Heq in Ec. destruct (final_completed _ _ Ec) as [Hb|(Hall & Hpc & Hpd)].
+  - unfold examine_bypass in Hb. apply andb_true_iff in Hb as [Hb1 Hb2].
+    assert (Hpres : grp_present sh SPlan GBypass = true) by exact Hb1.
+    rewrite Hpres. rewrite Hst; [now rewrite Hb2|exact Hpres].
+  - apply orb_true_iff. right. apply andb_true_iff. split.
+    + apply forallb_forall. intros b Hb. apply in_seq in Hb. rewrite Hst.
+      * unfold all_blocks_completed in Hall. rewrite forallb_forall in Hall. apply Hall. apply in_seq. exact Hb.
+      * cbn. unfold block_of. destruct (nth_error (sh_blocks sh) b) eqn:E; [reflexivity|]. apply nth_error_None in E. lia.
+    + unfold plan_groups_ok. apply forallb_forall. intros g Hg.
+      assert (Hor : gpresent sh g = false \/ mst (mget r1) (OChecks SPlan g) = Completed).
+      { destruct Hg as [<-|[<-|[<-|[<-|[]]]]].
+        - eapply examine_none; [exact Hpc|left; reflexivity].
+        - eapply examine_none; [exact Hpc|right; left; reflexivity].
+        - eapply examine_none; [exact Hpd|left; reflexivity].
+        - eapply examine_none; [exact Hpd|right; left; reflexivity]. }
+      assert (Hgp : grp_present sh SPlan g = gpresent sh g) by reflexivity.
+      rewrite Hgp. destruct (gpresent sh g) eqn:Eg; [|reflexivity]. simpl. destruct Hor as [Q|Q]; [discriminate|].
+      rewrite Hst; [now rewrite Q|exact Eg].
+Qed.
+
+Section Crash2.
+  Variables (sh : shape) (tr1 : list event) (s1 : st) (k : nat).
+  Hypothesis Hrun : run sh init tr1 = Some s1.
+  Variable I : image.
+  Hypothesis Hag : image_agrees (all_objs sh) (fst (crash_image sh tr1 k)) (snd (crash_image sh tr1 k)) I = true.
+  Hypothesis Hpl : cst I OPlan = Running.
+
+  Theorem crash_released_plan_consistent d tr fin r0 r :
+    rinit sh (dimg_of_image I) (im_reason I) = Some r0 ->
+    rrun d sh r0 (tr ++ [EvRelease fin]) = Some r -> plan_consistent sh fin = true.
+  Proof.
+    intros Hi H. destruct (crash_sound sh tr1 s1 k Hrun I Hag Hpl r0 Hi) as [MS RS].
+    eapply released_plan_consistent; eauto. exact (crash_plan_running I Hpl).
+  Qed.
+End Crash2.
